@@ -247,8 +247,8 @@ func c01Run(c *vfCtx, cs c01Case) {
 		c.violation(class(), "replay changed the snapshot directory: "+d, cs)
 		return
 	}
-	if cs.Family == "A2" && !c.thorough() && vfHashJSON(cs)%6 != 0 {
-		return // quick tier: the two phases below cover every sixth program of the largest family, and every program of the others
+	if thin := map[bool]uint64{false: 6, true: 3}[c.thorough()]; cs.Family == "A2" && vfHashJSON(cs)%thin != 0 {
+		return // the two phases below cover every sixth (quick) / third (thorough) program of the largest family, and every program of the others
 	}
 	replay := func(what string, reset bool) bool {
 		if reset {
